@@ -10,6 +10,9 @@
 ATOMIC_STATIC_INLINE
 void parsec_mfence( void )
 {
+#if defined(ICLDISCO_PARSEC_VERIF)
+    PARSEC_VERIF_YIELD(PARSEC_VERIF_K_MFENCE, NULL);
+#endif
     __sync_synchronize();
 }
 
@@ -21,6 +24,9 @@ int parsec_atomic_cas_int32( volatile int32_t* location,
                              int32_t old_value,
                              int32_t new_value )
 {
+#if defined(ICLDISCO_PARSEC_VERIF)
+    PARSEC_VERIF_YIELD(PARSEC_VERIF_K_CAS32, location);
+#endif
     return (__sync_bool_compare_and_swap(location, old_value, new_value) ? 1 : 0);
 }
 
@@ -31,6 +37,9 @@ int parsec_atomic_cas_int64( volatile int64_t* location,
                              int64_t old_value,
                              int64_t new_value )
 {
+#if defined(ICLDISCO_PARSEC_VERIF)
+    PARSEC_VERIF_YIELD(PARSEC_VERIF_K_CAS64, location);
+#endif
     return (__sync_bool_compare_and_swap(location, old_value, new_value) ? 1 : 0);
 }
 #else
@@ -45,6 +54,9 @@ int parsec_atomic_cas_int128( volatile __int128_t* location,
                               __int128_t old_value,
                               __int128_t new_value )
 {
+#if defined(ICLDISCO_PARSEC_VERIF)
+    PARSEC_VERIF_YIELD(PARSEC_VERIF_K_CAS128, location);
+#endif
     return (__sync_bool_compare_and_swap(location, old_value, new_value) ? 1 : 0);
 }
 #else
@@ -59,6 +71,9 @@ ATOMIC_STATIC_INLINE
 int32_t parsec_atomic_fetch_or_int32( volatile int32_t* location,
                                       int32_t value )
 {
+#if defined(ICLDISCO_PARSEC_VERIF)
+    PARSEC_VERIF_YIELD(PARSEC_VERIF_K_OR32, location);
+#endif
     return __sync_fetch_and_or(location, value);
 }
 
@@ -67,6 +82,9 @@ ATOMIC_STATIC_INLINE
 int32_t parsec_atomic_fetch_and_int32( volatile int32_t* location,
                                        int32_t value )
 {
+#if defined(ICLDISCO_PARSEC_VERIF)
+    PARSEC_VERIF_YIELD(PARSEC_VERIF_K_AND32, location);
+#endif
     return __sync_fetch_and_and(location, value);
 }
 
@@ -75,6 +93,9 @@ ATOMIC_STATIC_INLINE
 int64_t parsec_atomic_fetch_or_int64( volatile int64_t* location,
                                       int64_t value )
 {
+#if defined(ICLDISCO_PARSEC_VERIF)
+    PARSEC_VERIF_YIELD(PARSEC_VERIF_K_OR64, location);
+#endif
     return __sync_fetch_and_or(location, value);
 }
 
@@ -83,6 +104,9 @@ ATOMIC_STATIC_INLINE
 int64_t parsec_atomic_fetch_and_int64( volatile int64_t* location,
                                        int64_t value )
 {
+#if defined(ICLDISCO_PARSEC_VERIF)
+    PARSEC_VERIF_YIELD(PARSEC_VERIF_K_AND64, location);
+#endif
     return __sync_fetch_and_and(location, value);
 }
 
@@ -93,6 +117,9 @@ ATOMIC_STATIC_INLINE
 __int128_t parsec_atomic_fetch_or_int128( volatile __int128_t* location,
                                           __int128_t or_value )
 {
+#if defined(ICLDISCO_PARSEC_VERIF)
+    PARSEC_VERIF_YIELD(PARSEC_VERIF_K_OR128, location);
+#endif
     return __sync_fetch_and_or(location, or_value);
 }
 
@@ -101,6 +128,9 @@ ATOMIC_STATIC_INLINE
 __int128_t parsec_atomic_fetch_and_int128( volatile __int128_t* location,
                                            __int128_t and_value )
 {
+#if defined(ICLDISCO_PARSEC_VERIF)
+    PARSEC_VERIF_YIELD(PARSEC_VERIF_K_AND128, location);
+#endif
     return __sync_fetch_and_and(location, and_value);
 }
 #else  /* defined(PARSEC_ATOMIC_USE_GCC_128_OTHER_BUILTINS) */
@@ -109,6 +139,9 @@ ATOMIC_STATIC_INLINE
 __int128_t parsec_atomic_fetch_or_int128( volatile __int128_t* location,
                                           __int128_t or_value )
 {
+#if defined(ICLDISCO_PARSEC_VERIF)
+    PARSEC_VERIF_YIELD(PARSEC_VERIF_K_OR128, location);
+#endif
     __int128_t old;
     do {
         old = *location;
@@ -121,6 +154,9 @@ ATOMIC_STATIC_INLINE
 __int128_t parsec_atomic_fetch_and_int128( volatile __int128_t* location,
                                            __int128_t and_value )
 {
+#if defined(ICLDISCO_PARSEC_VERIF)
+    PARSEC_VERIF_YIELD(PARSEC_VERIF_K_AND128, location);
+#endif
     __int128_t old;
     do {
         old = *location;
@@ -136,6 +172,9 @@ __int128_t parsec_atomic_fetch_and_int128( volatile __int128_t* location,
 ATOMIC_STATIC_INLINE
 int32_t parsec_atomic_fetch_add_int32(volatile int32_t* l, int32_t v)
 {
+#if defined(ICLDISCO_PARSEC_VERIF)
+    PARSEC_VERIF_YIELD(PARSEC_VERIF_K_ADD32, l);
+#endif
     return __sync_fetch_and_add(l, v);
 }
 
@@ -143,6 +182,9 @@ int32_t parsec_atomic_fetch_add_int32(volatile int32_t* l, int32_t v)
 ATOMIC_STATIC_INLINE
 int64_t parsec_atomic_fetch_add_int64(volatile int64_t* l, int64_t v)
 {
+#if defined(ICLDISCO_PARSEC_VERIF)
+    PARSEC_VERIF_YIELD(PARSEC_VERIF_K_ADD64, l);
+#endif
     return __sync_fetch_and_add(l, v);
 }
 
@@ -152,6 +194,9 @@ int64_t parsec_atomic_fetch_add_int64(volatile int64_t* l, int64_t v)
 ATOMIC_STATIC_INLINE
 __int128_t parsec_atomic_fetch_add_int128(volatile __int128_t* l, __int128_t v)
 {
+#if defined(ICLDISCO_PARSEC_VERIF)
+    PARSEC_VERIF_YIELD(PARSEC_VERIF_K_ADD128, l);
+#endif
     return __sync_fetch_and_add(l, v);
 }
 
@@ -161,6 +206,9 @@ ATOMIC_STATIC_INLINE
 __int128_t parsec_atomic_fetch_add_int128( volatile __int128_t* location,
                                            __int128_t v)
 {
+#if defined(ICLDISCO_PARSEC_VERIF)
+    PARSEC_VERIF_YIELD(PARSEC_VERIF_K_ADD128, location);
+#endif
     __int128_t old;
     do {
         old = *location;
